@@ -271,6 +271,52 @@ pub fn run(tier: Tier) -> i32 {
         ("expected", J::s("stdout and exit status byte-identical to the plain-VCF-by-path run with 1 thread")),
     ]));
 
+    // file names: the container is decided by content, whatever the path is called
+    const NAMES: [&str; 10] = ["in", "in.dat", "in.vcf", "in.vcf.gz", "in.bcf", "in.gz", "in.bgz", "IN.VCF", "in.txt", "in.bcf.vcf"];
+    let mut nj: Vec<(usize, Container, usize, usize)> = Vec::new();
+    for si in 0..sets.len() - 1 {
+        for c in Container::all() {
+            for ni in 0..NAMES.len() {
+                for t in [1usize, 4] {
+                    nj.push((si, c, ni, t));
+                }
+            }
+        }
+    }
+    let res = par_map(nj.len(), |i| {
+        let (si, c, ni, t) = nj[i];
+        let cs = sets[si].1;
+        let bytes = render(cs, c, &Layout::Fixed(64));
+        let dir = scratch.path(".d");
+        std::fs::create_dir_all(&dir).expect("scratch dir");
+        let path = dir.join(NAMES[ni]);
+        std::fs::write(&path, &bytes).expect("scratch write");
+        let ts = t.to_string();
+        let o = run_sfs(&["create", "--threads", &ts, path.to_str().unwrap()], Stdin::Null, &scratch);
+        let _ = std::fs::remove_dir_all(&dir);
+        let can = &canon[si][0];
+        if o.code == can.code && o.signal == can.signal && o.stdout == can.stdout {
+            None
+        } else {
+            Some((
+                format!("C12|cli|result-depends-on-file-name|{}|{}", c.name(), NAMES[ni]),
+                format!("{} as {} stored under the name '{}' (--threads {t}): {} {:?} {:?}", sets[si].0, c.name(), NAMES[ni], o.status_str(), &o.stdout_str()[..o.stdout.len().min(200)], o.stderr_str().trim()),
+                J::obj([("kind", J::s("c12-name")), ("call_set", J::s(sets[si].0)), ("container", J::s(c.name())), ("name", J::s(NAMES[ni])), ("threads", J::u(t))]),
+            ))
+        }
+    });
+    for v in res.into_iter().flatten() {
+        rep.violation(v.0, v.1, v.2);
+    }
+    rep.part(Part {
+        name: "cli: file names".into(),
+        evaluations: nj.len() as u64,
+        nontrivial: nj.len() as u64,
+        note: format!("{} small call sets x 4 containers x {} file names (no extension, neutral, matching and misleading extensions) x threads {{1,4}}: identical to the canonical run", sets.len() - 1, NAMES.len()),
+        exhaustive: true,
+        extra: vec![],
+    });
+
     // real pipes (arrival in two writes) for each container of the second call set
     let cs = sets[1].1;
     let mut pj: Vec<(Container, usize)> = Vec::new();
@@ -413,6 +459,56 @@ pub fn run(tier: Tier) -> i32 {
     rep.finish()
 }
 
-pub fn replay(_case: &J) -> Option<Vec<String>> {
-    None
+fn layout_by_name(name: &str) -> Option<Layout> {
+    let mut all = all_layouts();
+    all.extend([Layout::EmptyMiddle(4096), Layout::NoEof(65280), Layout::Stored(65280)]);
+    all.into_iter().find(|l| l.name() == name)
+}
+
+pub fn replay(case: &J) -> Option<Vec<String>> {
+    let kind = case.get("kind")?.as_str()?.to_string();
+    let scratch = Scratch::new("c12r");
+    let smalls = small_call_sets();
+    let big = big_call_set();
+    let set_name = case.get("call_set").and_then(|s| s.as_str()).unwrap_or(smalls[1].0).to_string();
+    let cs: &CallSet = if set_name == "big-2600-records" { &big } else { &smalls.iter().find(|(n, _)| *n == set_name)?.1 };
+    let cname = case.get("container")?.as_str()?;
+    let container = Container::all().into_iter().find(|c| c.name() == cname)?;
+    let canon = |config: usize| {
+        let v = Variant { set: 0, container: Container::Vcf, layout: Layout::Single, stdin: false, threads: 1, config, rep: 0 };
+        run_variant(&v, &render(cs, Container::Vcf, &Layout::Single), cs.samples.len(), &scratch)
+    };
+    let judge = |o: &Out, c: &Out, what: String| -> Vec<String> {
+        if o.code == c.code && o.signal == c.signal && o.stdout == c.stdout {
+            vec![]
+        } else {
+            vec![format!("{what}: {} stdout {:?} stderr {:?}; canonical {} stdout {:?}", o.status_str(), &o.stdout_str()[..o.stdout.len().min(200)], o.stderr_str().trim(), c.status_str(), &c.stdout_str()[..c.stdout.len().min(200)])]
+        }
+    };
+    match kind.as_str() {
+        "c12" => {
+            let layout = layout_by_name(case.get("layout")?.as_str()?)?;
+            let config = case.get("config")?.as_i64()? as usize;
+            let v = Variant { set: 0, container, layout: layout.clone(), stdin: case.get("transport")?.as_str()? == "stdin", threads: case.get("threads")?.as_i64()? as usize, config, rep: 0 };
+            let o = run_variant(&v, &render(cs, container, &layout), cs.samples.len(), &scratch);
+            Some(judge(&o, &canon(config), format!("C12|cli|differs-from-canonical :: {set_name} as {cname} ({})", layout.name())))
+        }
+        "c12-name" => {
+            let name = case.get("name")?.as_str()?.to_string();
+            let t = case.get("threads")?.as_i64()?.to_string();
+            let dir = scratch.path(".d");
+            std::fs::create_dir_all(&dir).ok()?;
+            let path = dir.join(&name);
+            std::fs::write(&path, render(cs, container, &Layout::Fixed(64))).ok()?;
+            let o = run_sfs(&["create", "--threads", &t, path.to_str()?], Stdin::Null, &scratch);
+            Some(judge(&o, &canon(0), format!("C12|cli|result-depends-on-file-name :: {set_name} as {cname} named '{name}'")))
+        }
+        "c12-pipe" => {
+            let bytes = render(cs, container, &Layout::PerUnit);
+            let f = (case.get("first")?.as_i64()? as usize).min(bytes.len());
+            let o = run_sfs_piped(&["create", "--threads", "3"], &[&bytes[..f], &bytes[f..]], 30, &scratch);
+            Some(judge(&o, &canon(0), format!("C12|cli|pipe-differs-from-canonical :: {cname} first write {f}")))
+        }
+        _ => None,
+    }
 }
